@@ -325,6 +325,11 @@ func (c *rlComp) Gen(rng *rand.Rand, idx int, tier string, targeted bool) hlib.H
 	if rng.Intn(3) == 0 || targeted {
 		capacity = 65536
 	}
+	crowd := !targeted && !drainIdle && rng.Intn(8) == 0 // more sources than a two-digit capacity: evictions from a well-filled table
+	if crowd {
+		capacity = int64(16 + rng.Intn(24))
+		nsrc = int(capacity) + 1 + rng.Intn(6)
+	}
 	start := int64(1600000000)*1e9 + rng.Int63n(3e9)
 	h.Cfg = []int64{capacity, start, int64(len(rates))}
 	var maxPeriod, minBurst int64
@@ -356,6 +361,14 @@ func (c *rlComp) Gen(rng *rand.Rand, idx int, tier string, targeted bool) hlib.H
 			h.Ops = append(h.Ops, []int64{0, src, 1, -1})
 			h.Ops = append(h.Ops, []int64{2})
 			h.Ops = append(h.Ops, []int64{0, src, 1, -1})
+		}
+	}
+	if crowd { // every source once, in order, then the usual traffic over all of them
+		for s := 0; s < nsrc; s++ {
+			h.Ops = append(h.Ops, []int64{0, int64(s), 1, -1})
+			if rng.Intn(4) == 0 {
+				h.Ops = append(h.Ops, []int64{1, rng.Int63n(2e9)})
+			}
 		}
 	}
 	mode := rng.Intn(4) // 0 mixed, 1 sustained traffic longer than the entry lifetime, 2 idle gaps around refill/expiry, 3 retry-at-advertised
